@@ -145,7 +145,7 @@ func (s *tunnelServer) createStream(ctx context.Context, streamID int64, frame *
 	}
 	s.lastSeen = streamID
 
-	if frame.MethodName[0] == '/' {
+	if len(frame.MethodName) > 0 && frame.MethodName[0] == '/' {
 		frame.MethodName = frame.MethodName[1:]
 	}
 	parts := strings.SplitN(frame.MethodName, "/", 2)
